@@ -15,7 +15,7 @@ class Contract:
                  inline=False, trusted=False, pure=False, auto=True, result_fresh=True,
                  prop_of=None, notes='', cls_targs=None, verify=True, terminates=True, unroll=None,
                  reads_only=False, this_shape=None, extra_env=None, body_assumes=(), max_paths=4000,
-                 returns_ref=None, timeout_ms=None, sig_not=None, binds=None, ghost=None, ghost_on=(), nowrap=False, post_facts=()):
+                 returns_ref=None, timeout_ms=None, sig_not=None, binds=None, ghost=None, ghost_on=(), nowrap=False, post_facts=(), value=None):
         self.name = name
         self.tu = tu
         self.sig = sig
@@ -49,6 +49,9 @@ class Contract:
         self.ghost_on = list(ghost_on)
         self.nowrap = nowrap
         self.post_facts = list(post_facts)
+        self.value = value
+        if value is not None:
+            self.ensures.append(('value', 'result == (%s)' % value))
         self.timeout_ms = timeout_ms
 
     def props_for(self, label):
@@ -151,6 +154,17 @@ INSLICE = z3.Function('in_slice', z3.IntSort(), z3.IntSort(), z3.IntSort(), z3.I
 def inslice_def():
     a, m, nc, j, k = z3.Ints('a!is m!is nc!is j!is k!is')
     return z3.ForAll([a, m, nc, j], INSLICE(a, m, nc, j) == z3.Exists([k], z3.And(0 <= k, k < nc, j == a + k * m)))
+
+
+def inslice_base(a, m):
+    j = z3.Int('j!ib')
+    return z3.ForAll([j], z3.Not(INSLICE(a, m, 0, j)))
+
+
+def inslice_step(a, m, c):
+    """positions of c+1 elements = positions of c elements plus a + c*m (from the definition, c >= 0)"""
+    j = z3.Int('j!st')
+    return z3.Implies(c >= 0, z3.ForAll([j], INSLICE(a, m, c + 1, j) == z3.Or(INSLICE(a, m, c, j), j == a + c * m)))
 
 
 def inslice_ax():
@@ -350,6 +364,33 @@ def _real_q(kind, f):
     return z3.ForAll(vs, body) if kind == 'A' else z3.Exists(vs, body)
 
 
+class Unbound:
+    """a name that is not in scope on the current path (e.g. a local declared after an early return)"""
+
+    def __init__(self, name):
+        object.__setattr__(self, '_name', name)
+
+    def _fail(self, *a, **k):
+        raise NameError('spec name %r is not bound on this path' % self._name)
+
+    __getattr__ = __getitem__ = __call__ = __add__ = __eq__ = __lt__ = __le__ = __gt__ = __ge__ = _fail
+
+    def __hash__(self):
+        return id(self)
+
+
+def _when(cond, thunk):
+    """Implies(cond, thunk()) where thunk may mention names that only exist on paths satisfying cond"""
+    c = z3.simplify(cond) if z3.is_expr(cond) else cond
+    if c is False or (z3.is_expr(c) and z3.is_false(c)):
+        return z3.BoolVal(True)
+    try:
+        body = thunk()
+    except NameError:
+        body = z3.BoolVal(False)
+    return z3.Implies(cond, body)
+
+
 MODE = ['assume']     # 'prove' while a function's own postconditions are being established
 
 
@@ -480,13 +521,21 @@ def _pow2(y, bits=64):
     return pow2_ite(y, bits)
 
 
+def _If(c, a, b):
+    if isinstance(a, W) or isinstance(b, W):
+        from .values import ite as _ite
+        a, b = cx(a), cx(b)
+        return W(a._env or b._env, _ite(c, a._t, b._t))
+    return z3.If(c, a, b)
+
+
 BASE_NS = {
     'pow2': _pow2,
     'add': _arith('+'), 'sub': _arith('-'), 'mul': _arith('*'), 'div': _arith('/'), 'eqv': eqv,
-    'cx': cx, 'CDIV_DEF': cdiv_def, 'INSLICE': INSLICE, 'INSLICE_AX': inslice_ax,
-    'And': z3.And, 'Or': z3.Or, 'Not': z3.Not, 'Implies': z3.Implies, 'If': z3.If, 'Xor': z3.Xor,
+    'cx': cx, 'CDIV_DEF': cdiv_def, 'INSLICE': INSLICE, 'INSLICE_AX': inslice_ax, 'INSLICE_BASE': inslice_base, 'INSLICE_STEP': inslice_step,
+    'And': z3.And, 'Or': z3.Or, 'Not': z3.Not, 'Implies': z3.Implies, 'If': _If, 'Xor': z3.Xor,
     'forall': lambda f: _bounded('A', f), 'exists': lambda f: _bounded('E', f),
-    'exists_w': _exists_w,
+    'exists_w': _exists_w, 'when': _when,
     'forall_real': lambda f: _real_q('A', f), 'exists_real': lambda f: _real_q('E', f),
     'INT_MIN': INT_MIN, 'INT_MAX': INT_MAX, 'tdiv': tdiv, 'tmod': tmod, 'absz': zabs, 'zmax': zmax, 'zmin': zmin,
     'ToReal': z3.ToReal, 'ToInt': z3.ToInt, 'IntVal': z3.IntVal, 'RealVal': z3.RealVal, 'BoolVal': z3.BoolVal,
@@ -542,13 +591,20 @@ def spec_eval(expr, env, extra=None, term=False):
     for nm in used:
         if extra and nm in extra:
             g[nm] = extra[nm]
-        elif nm in BASE_NS:
+            continue
+        try:
+            g[nm] = env.lookup(nm)      # program names (parameters, locals, fields) shadow spec helpers
+            continue
+        except KeyError:
+            pass
+        if nm in BASE_NS:
             g[nm] = BASE_NS[nm]
         else:
-            try:
-                g[nm] = env.lookup(nm)
-            except KeyError:
-                raise NameError('spec name %r is not bound (renamed local / field?) in: %s' % (nm, expr))
+            if True:
+                if 'when(' in expr:
+                    g[nm] = Unbound(nm)
+                else:
+                    raise NameError('spec name %r is not bound (renamed local / field?) in: %s' % (nm, expr))
     r = eval(code, g)
     if term:
         if isinstance(r, int) and not isinstance(r, bool):
